@@ -173,8 +173,12 @@ def run_threaded(p: Dict[str, Any]) -> Tuple[List[str], str]:
             def remove_service(self, zc: Any, t: str, n: str) -> None: calls.append((real_time.monotonic(), "rm", n))
             def update_service(self, zc: Any, t: str, n: str) -> None: calls.append((real_time.monotonic(), "upd", n))
 
+        lst = L()
         with w.outside():
-            host.zc.add_service_listener(TB, L())
+            for type_ in p.get("listen", [TB]):
+                # (the same listener object registered again - for the same or for another type - replaces its browser)
+                host.zc.add_service_listener(type_, lst)
+                w.settle()
         w.settle()
         w.advance(200)
         for k in (1, 2):
@@ -196,6 +200,12 @@ def run_threaded(p: Dict[str, Any]) -> Tuple[List[str], str]:
                             f"{p['hold_s']} s when close was called)")
         if len(calls) < 2 and not late:
             problems.append(f"callbacks: the queued callback was never delivered ({calls})")
+        from zeroconf import ServiceBrowser
+        left = [t.name for t in threading.enumerate() if isinstance(t, ServiceBrowser) and t.zc is host.zc and t.is_alive()]
+        if left:
+            problems.append(f"browsers: browser thread(s) {left} of the closed instance are still running after close() returned")
+        if host.zc.listeners:
+            problems.append(f"browsers: {len(host.zc.listeners)} record listener(s) still registered after close() returned")
         excs = w.exceptions()
         if excs:
             problems.append(f"exception: {excs[0]}")
@@ -206,6 +216,10 @@ def points(tier: str) -> List[Dict[str, Any]]:
     pts: List[Dict[str, Any]] = []
     for hold in ((0.05, 1.1, 3.3) if tier == "quick" else (0.05, 0.5, 1.1, 3.3, 5.5, 11.0)):
         pts.append({"scenario": "threaded-browser", "hold_s": hold, "mode": "sync_close", "jitter": 0.0, "close_at_us": 0})
+        if hold < 2:
+            for listen in ([TB, TB], [TA, TB], [TB, TA, TB]):
+                pts.append({"scenario": "threaded-browser", "hold_s": hold, "mode": "sync_close", "jitter": 0.0, "close_at_us": 0,
+                            "listen": listen})
     for socks in ("single", "dual"):
         for k in range(0, 12):
             pts.append({"scenario": "at-birth", "socks": socks, "k": k, "mode": "async_close", "jitter": 0.0, "close_at_us": 0})
@@ -416,8 +430,9 @@ def run_point(p: Dict[str, Any], verbose: bool = False) -> Tuple[Optional[Dict[s
 def run(tier: str, seed: int) -> Tuple[Stats, str, List[str], Dict[str, Any]]:
     stats = Stats()
     pts = points(tier)
-    for k in (5, len(pts) // 2):
-        if run_point(pts[k])[1] != run_point(pts[k])[1]:
+    virtual = [q for q in pts if q["scenario"] != "threaded-browser"]  # (real threads and real seconds are not replayable)
+    for q in (virtual[2], virtual[len(virtual) // 2]):
+        if run_point(q)[1] != run_point(q)[1]:
             raise HarnessError("C17 scenario is not deterministic")
     explore_product(run_point, pts, stats, f"C17/{tier}")
     stats.states = len(stats.outcomes)
